@@ -38,11 +38,58 @@ type codecCorpus struct {
 	notes []string
 }
 
+// buildViols collects the violations met while the corpus is being built (codec
+// discovery, seed encoding, sanity decodes). Every call into lnd made during
+// construction goes through guard / guardBytes: "never panics" is the first clause of
+// the property, so a panic there is a verdict about an input, not a reason to die.
+// The parent reports the list; workers build the same corpus and ignore theirs.
+var buildViols []violRec
+
+func failCodecName(code lnwire.FailCode) string {
+	name := "?"
+	safely(func() { name = code.String() })
+	return fmt.Sprintf("fail/%s(0x%04x)", name, uint16(code))
+}
+
+// guardBytes runs a decode of full (= prefix || body) under recover.
+func guardBytes(codecName string, prefixLen int, full []byte, f func()) (panicked bool) {
+	p := safely(f)
+	if p == "" {
+		return false
+	}
+	body := bytemut.Raw(full[prefixLen:])
+	buildViols = append(buildViols, violRec{
+		Sig:  "lnwire:" + codecName + ":decode-panic:" + panicClass(p),
+		What: fmt.Sprintf("decoding %s panicked: %s (met while building the corpus)", hexs(full, 64), p),
+		Replay: replayCase{Half: "lnwire", Codec: codecName, Kind: "bytes", Family: "corpus",
+			Prefix: fmt.Sprintf("%x", full[:prefixLen]), Mut: &body},
+	})
+	return true
+}
+
+// guard runs an encode / constructor / generator call under recover.
+func guard(codecName, what string, desc map[string]any, f func()) (panicked bool) {
+	p := safely(f)
+	if p == "" {
+		return false
+	}
+	buildViols = append(buildViols, violRec{
+		Sig:    "lnwire:" + codecName + ":" + what + "-panic:" + panicClass(p),
+		What:   fmt.Sprintf("%s of corpus value %v panicked: %s (met while building the corpus)", what, desc, p),
+		Replay: replayCase{Half: "lnwire", Codec: codecName, Kind: "value", Desc: desc},
+	})
+	return true
+}
+
 // registeredTypes asks the real dispatcher which types exist.
 func registeredTypes() []lnwire.MessageType {
 	var out []lnwire.MessageType
 	for t := 0; t < int(lnwire.MsgEnd)+8; t++ {
-		if _, err := lnwire.MakeEmptyMessage(lnwire.MessageType(t)); err == nil {
+		var err error
+		if guard(fmt.Sprintf("msg/type%d", t), "make-empty-message", nil, func() { _, err = lnwire.MakeEmptyMessage(lnwire.MessageType(t)) }) {
+			continue
+		}
+		if err == nil {
 			out = append(out, lnwire.MessageType(t))
 		}
 	}
@@ -54,7 +101,13 @@ func registeredFailCodes() []lnwire.FailCode {
 	var out []lnwire.FailCode
 	for c := 0; c < 65536; c++ {
 		p := be16(uint16(c))
-		_, err := lnwire.DecodeFailureMessage(bytes.NewReader(append(p[:], make([]byte, 300)...)), 0)
+		full := append(p[:], make([]byte, 300)...)
+		var err error
+		// a code whose decoder panics on this probe is a registered code (and the
+		// panic is recorded as a violation with the probe as its input)
+		guardBytes(failCodecName(lnwire.FailCode(c)), 2, full, func() {
+			_, err = lnwire.DecodeFailureMessage(bytes.NewReader(full), 0)
+		})
 		if err != nil && strings.Contains(err.Error(), "unknown error code") {
 			continue
 		}
@@ -222,7 +275,11 @@ func fillerStream(n int) []byte {
 
 // buildMsgCorpus builds the seeds of one message type.
 func buildMsgCorpus(t lnwire.MessageType, nMut, nVal int, thorough bool) *codecCorpus {
-	empty, _ := lnwire.MakeEmptyMessage(t)
+	var empty lnwire.Message
+	safely(func() { empty, _ = lnwire.MakeEmptyMessage(t) })
+	if empty == nil {
+		return &codecCorpus{c: &codec{name: fmt.Sprintf("msg/type%d", t), kind: kMsg, prefix: be16(uint16(t))}, notes: []string{"MakeEmptyMessage failed"}}
+	}
 	c := &codec{name: "msg/" + typeName(empty), kind: kMsg, prefix: be16(uint16(t))}
 	switch t {
 	case lnwire.MsgQueryShortChanIDs, lnwire.MsgReplyChannelRange:
@@ -243,16 +300,22 @@ func buildMsgCorpus(t lnwire.MessageType, nMut, nVal int, thorough bool) *codecC
 		cc.seeds = append(cc.seeds, s)
 		return true
 	}
+	encDesc := map[string]any{}
 	enc := func(v any) []byte {
 		var b []byte
-		if p := safely(func() { b, _ = c.encode(v) }); p != "" {
+		if guard(c.name, "encode", encDesc, func() { b, _ = c.encode(v) }) {
 			return nil
 		}
 		return b
 	}
 
 	// (1) the zero message
-	zero := func() any { m, _ := lnwire.MakeEmptyMessage(t); return m }
+	zero := func() any {
+		var m lnwire.Message
+		safely(func() { m, _ = lnwire.MakeEmptyMessage(t) })
+		return m
+	}
+	encDesc = map[string]any{"gen": "zero"}
 	if b := enc(zero()); b != nil {
 		add(seed{name: "zero", full: b, gen: zero, desc: map[string]any{"gen": "zero"}})
 	} else {
@@ -300,6 +363,7 @@ func buildMsgCorpus(t lnwire.MessageType, nMut, nVal int, thorough bool) *codecC
 			// fullest example only.
 			mutate = k == fullest
 		}
+		encDesc = map[string]any{"gen": "rapid", "type": int(t), "seed": k}
 		add(seed{name: fmt.Sprintf("rand%d", k), full: enc(gen()), gen: gen, wellFormed: true, valueOnly: !mutate,
 			sweep: k == fullest || (thorough && k == emptiest),
 			desc:  map[string]any{"gen": "rapid", "type": int(t), "seed": k}})
@@ -336,6 +400,7 @@ func buildMsgCorpus(t lnwire.MessageType, nMut, nVal int, thorough bool) *codecC
 				}
 				return m
 			}
+			encDesc = map[string]any{"gen": "rapid", "type": int(t), "seed": k, "clear": clear}
 			if add(seed{name: fmt.Sprintf("rand%d-without-%s", k, strings.Join(clear, "+")), full: enc(gen()), gen: gen, valueOnly: true,
 				desc: map[string]any{"gen": "rapid", "type": int(t), "seed": k, "clear": clear}}) {
 				derived++
@@ -354,6 +419,7 @@ func buildMsgCorpus(t lnwire.MessageType, nMut, nVal int, thorough bool) *codecC
 			}
 			continue
 		}
+		encDesc = map[string]any{"gen": "max", "type": int(t), "body": bodyLen}
 		b := enc(gen())
 		if bodyLen > lnwire.MaxMsgBody {
 			// V3: the encoder must refuse. Recorded as a pseudo-seed without bytes.
@@ -369,7 +435,9 @@ func buildMsgCorpus(t lnwire.MessageType, nMut, nVal int, thorough bool) *codecC
 			}
 			fill := fillerStream(bodyLen + 2 - len(b))
 			raw := append(append([]byte{}, b...), fill...)
-			if _, err := lnwire.ReadMessage(bytes.NewReader(raw), 0); err == nil && fill != nil {
+			err := fmt.Errorf("not decoded")
+			guardBytes(c.name, 2, raw, func() { _, err = lnwire.ReadMessage(bytes.NewReader(raw), 0) })
+			if err == nil && fill != nil {
 				add(seed{name: fmt.Sprintf("maxbytes%d", bodyLen), full: raw, valueOnly: bodyLen != lnwire.MaxMsgBody, desc: map[string]any{"gen": "bytes"}})
 			} else if bodyLen == lnwire.MaxMsgBody {
 				cc.notes = append(cc.notes, "no maximal seed (appended filler record refused)")
@@ -387,6 +455,7 @@ func buildMsgCorpus(t lnwire.MessageType, nMut, nVal int, thorough bool) *codecC
 		for _, n := range zlibSizes(thorough) {
 			n := n
 			gen := func() any { return zlibValue(t, n) }
+			encDesc = map[string]any{"gen": "zlib", "type": int(t), "ids": n}
 			add(seed{name: fmt.Sprintf("zlib%d", n), full: enc(gen()), gen: gen, valueOnly: n > 64,
 				desc: map[string]any{"gen": "zlib", "type": int(t), "ids": n}})
 			if raw := zlibRaw(t, n); raw != nil {
@@ -428,7 +497,9 @@ func maxValue(t lnwire.MessageType, examples []lnwire.Message, bodyLen int) func
 	}
 	fv.Set(reflect.ValueOf(lnwire.ExtraOpaqueData{}))
 	var buf bytes.Buffer
-	if _, err := lnwire.WriteMessage(&buf, probe, 0); err != nil {
+	err := fmt.Errorf("not encoded")
+	safely(func() { _, err = lnwire.WriteMessage(&buf, probe, 0) }) // a panic here is reported through enc() on the same value
+	if err != nil {
 		return nil
 	}
 	base := buf.Len() - 2
@@ -634,7 +705,7 @@ func failureValues(code lnwire.FailCode) []func() any {
 }
 
 func buildFailCorpus(code lnwire.FailCode) (*codecCorpus, []seed) {
-	c := &codec{name: fmt.Sprintf("fail/%s(0x%04x)", code.String(), uint16(code)), kind: kFailMsg, prefix: be16(uint16(code))}
+	c := &codec{name: failCodecName(code), kind: kFailMsg, prefix: be16(uint16(code))}
 	cc := &codecCorpus{c: c}
 	var pkts []seed
 	pc := &codec{kind: kFailPkt}
@@ -642,14 +713,15 @@ func buildFailCorpus(code lnwire.FailCode) (*codecCorpus, []seed) {
 	for i, g := range gens {
 		g := g
 		var b, p []byte
-		safely(func() { b, _ = c.encode(g()) })
+		fdesc := map[string]any{"gen": "failctor", "code": int(code), "i": i}
+		guard(c.name, "encode", fdesc, func() { b, _ = c.encode(g()) })
 		if b == nil {
 			cc.notes = append(cc.notes, fmt.Sprintf("constructor value %d not encodable", i))
 			continue
 		}
 		cc.seeds = append(cc.seeds, seed{name: fmt.Sprintf("ctor%d", i), full: b, gen: g, wellFormed: true, sweep: true,
 			desc: map[string]any{"gen": "failctor", "code": int(code), "i": i}})
-		safely(func() { p, _ = pc.encode(g()) })
+		guard("failpkt", "encode", fdesc, func() { p, _ = pc.encode(g()) })
 		if p != nil {
 			pkts = append(pkts, seed{name: fmt.Sprintf("%s-ctor%d", code.String(), i), full: p, gen: g, wellFormed: true,
 				desc: map[string]any{"gen": "failctor", "code": int(code), "i": i}})
@@ -660,7 +732,9 @@ func buildFailCorpus(code lnwire.FailCode) (*codecCorpus, []seed) {
 		p := be16(uint16(code))
 		for n := 0; n <= 300; n++ {
 			full := append(p[:], make([]byte, n)...)
-			if _, err := lnwire.DecodeFailureMessage(bytes.NewReader(full), 0); err == nil {
+			err := fmt.Errorf("not decoded")
+			guardBytes(c.name, 2, full, func() { _, err = lnwire.DecodeFailureMessage(bytes.NewReader(full), 0) })
+			if err == nil {
 				cc.seeds = append(cc.seeds, seed{name: fmt.Sprintf("zeros%d", n), full: full, desc: map[string]any{"gen": "bytes"}})
 				break
 			}
@@ -677,6 +751,7 @@ type corpus struct {
 }
 
 func buildCorpus(thorough bool) *corpus {
+	buildViols = nil
 	nMut, nVal := 0, 48
 	if thorough {
 		nMut, nVal = 6, 256
